@@ -318,6 +318,25 @@ Proof.
   intros block returned_by accepted_by H. exact (cross_entry_point block returned_by accepted_by H _ override_complete).
 Qed.
 
+(* the documented failure convention travels with the forward: an exported entry point resolves to a
+   target of its class with exactly the failure convention the platform documents for the entry point
+   (posix_memalign -> error code, slot untouched; reallocarray -> NULL + errno; new -> throws; nothrow
+   new -> nullptr; malloc family -> NULL).  What the convention means for each mi_ target is the subject
+   of the allocator properties (Model/Api.v: posix_memalign, reallocarray). *)
+Lemma failure_convention : forall r e, In r required ->
+  find_entry Gen.Override.table (r_sym r) = Some e ->
+  exists g, find_target (e_target e) = Some g /\ t_cls g = r_cls r /\ t_fail g = r_fail r.
+Proof.
+  intros r e Hin Hf. pose proof (override_ok_req_ok _ override_complete r Hin) as H.
+  unfold req_ok in H. rewrite Hf in H. unfold entry_ok in H.
+  destruct (find_target (e_target e)) as [g|]; [|discriminate].
+  exists g. split; [reflexivity|].
+  apply andb_prop in H as [H _]. apply andb_prop in H as [H _]. apply andb_prop in H as [H _].
+  apply andb_prop in H as [H _]. apply andb_prop in H as [H _]. apply andb_prop in H as [H _].
+  apply andb_prop in H as [Hc Hfl].
+  split; [apply internal_cls_dec_bl; exact Hc | apply internal_onfail_dec_bl; exact Hfl].
+Qed.
+
 (* non-vacuity helpers used by Properties/C19.v: a table the decision rejects *)
 Definition drop_entry (s : string) (t : libtable) : libtable :=
   mkLib (filter (fun e => negb (String.eqb (e_sym e) s)) (l_entries t)) (l_defined t) (l_imports t).
